@@ -149,6 +149,7 @@ fn run_family(family: &str, tier: Tier, sink: &Sink) {
             named.extend(crate::c05::chain_sources());
             named.extend(crate::c10::name_probe_files());
             named.extend(crate::names::relation_sources(tier.pick(2, 3)));
+            named.extend(crate::c10::scaled_invalid_files(tier == Tier::Thorough));
             named.par_iter().for_each(|s| sink.feed(s));
             let m = tier.pick(3usize, 4usize);
             let items = crate::c10::item_alphabet();
@@ -286,6 +287,127 @@ pub fn probes() -> Vec<(&'static str, Box<dyn Fn() -> String>)> {
             s
         })),
     ]
+}
+
+// ---------------------------------------------------------------------------------------------
+// Growth series: "within bounded time" at the stated bounds cannot be tested by running the bound itself when
+// the cost explodes (nesting 256 at cost 2^depth never returns, and a time-out alone cannot tell that from a
+// slow polynomial). Each series runs one construct at sizes 4, 8, 12, ... and looks at the *ratio* of the CPU
+// times of consecutive sizes: a polynomial of degree <= 6 grows by less than a factor 10 per 4 more units
+// once the size is >= 8 (12/8)^6 = 11.4 is the worst case, (16/12)^6 = 5.6 ...), an exponential with base
+// >= 1.8 per unit grows by more than 10. kiki's own worst polynomial (automaton construction, about n^5)
+// stays below 8 from size 8 on.
+
+pub const GROWTH_STEP: usize = 4;
+pub const GROWTH_MIN_CPU_S: f64 = 0.05;
+pub const GROWTH_FACTOR: f64 = 12.0;
+pub const GROWTH_STEP_LIMIT_S: u64 = 60;
+
+pub fn growth_series() -> Vec<(&'static str, Box<dyn Fn(usize) -> String + Sync + Send>)> {
+    vec![
+        ("generic nesting, one argument per level", Box::new(|d| format!("start A\nstruct A($T)\nterminal Tok {{ $T: {}(){} }}\n", "a<".repeat(d), ">".repeat(d)))),
+        ("generic nesting, two arguments per level", Box::new(|d| format!("start A\nstruct A($T)\nterminal Tok {{ $T: {}(){} }}\n", "a<b::C, ".repeat(d), ">".repeat(d)))),
+        ("generic nesting, the nested argument first", Box::new(|d| format!("start A\nstruct A($T)\nterminal Tok {{ $T: {}(){} }}\n", "a<".repeat(d), ", u8>".repeat(d)))),
+        ("chain of nonterminals", Box::new(|d| {
+            let mut s = String::from("start N0\nterminal Tok { $T: () }\n");
+            for i in 0..d {
+                s += &format!("struct N{i}(N{})\n", i + 1);
+            }
+            s += &format!("struct N{d}($T)\n");
+            s
+        })),
+        ("precedence levels of an expression grammar", Box::new(|l| {
+            let f = crate::scaled::expr(l.min(59));
+            crate::gramsweep::Case::new(f.g.clone(), crate::scopes::Presentation::plain(&f.g)).rendered.source
+        })),
+        ("right-nested optional lists", Box::new(|d| {
+            let f = crate::scaled::nested(d.min(30));
+            crate::gramsweep::Case::new(f.g.clone(), crate::scopes::Presentation::plain(&f.g)).rendered.source
+        })),
+        ("attributes on one declaration", Box::new(|k| format!("start A\n{}struct A\nterminal Tok {{}}\n", "#[a(b)]\n".repeat(k)))),
+        ("attribute bracket nesting", Box::new(|d| format!("start A\n#[{}{}]\nstruct A\nterminal Tok {{}}\n", "(".repeat(d), ")".repeat(d)))),
+    ]
+}
+
+fn cpu_seconds() -> f64 {
+    // run time of this process in nanoseconds (first field of schedstat); wall clock as a fallback
+    std::fs::read_to_string("/proc/self/schedstat").ok().and_then(|s| s.split_whitespace().next().and_then(|x| x.parse::<f64>().ok())).map(|ns| ns / 1e9).unwrap_or(-1.0)
+}
+
+/// Entry point of a growth child: `kiki-mc c07-growth <series> <size>`.
+pub fn child_growth(series: usize, size: usize) -> ! {
+    let gs = growth_series();
+    let Some((_, make)) = gs.get(series) else { machinery_error("growth series index") };
+    let src = make(size);
+    let c0 = cpu_seconds();
+    let t0 = std::time::Instant::now();
+    let r = catch(|| kiki::generate(&src).map(|s| s.0.len()));
+    let cpu = if c0 >= 0.0 { cpu_seconds() - c0 } else { t0.elapsed().as_secs_f64() };
+    match r {
+        Err(p) => println!("{}", json!({"panic": normalize_panic(&p), "bytes": src.len()})),
+        Ok(x) => println!("{}", json!({"cpu_s": cpu, "wall_s": t0.elapsed().as_secs_f64(), "bytes": src.len(), "ok": x.is_ok()})),
+    }
+    std::process::exit(0);
+}
+
+/// One step of a series: Some(cpu seconds), or None if it did not finish within the step limit.
+fn growth_step(series: usize, size: usize) -> Result<Option<f64>, String> {
+    let r = run_child(&["c07-growth".into(), series.to_string(), size.to_string()], GROWTH_STEP_LIMIT_S, true);
+    if r.timed_out {
+        return Ok(None);
+    }
+    let v: Value = serde_json::from_str(r.stdout.lines().last().unwrap_or("")).unwrap_or(Value::Null);
+    if let Some(p) = v["panic"].as_str() {
+        return Err(format!("panic: {p}"));
+    }
+    if !r.ok {
+        return Err(r.signal_or_code);
+    }
+    v["cpu_s"].as_f64().map(Some).ok_or_else(|| "unreadable child output".to_string())
+}
+
+fn growth_finding(name: &str, a: usize, ta: f64, b: usize, tb: Option<f64>) -> Finding {
+    let tb_s = tb.map(|t| format!("{t:.2} s")).unwrap_or_else(|| format!("no return within {GROWTH_STEP_LIMIT_S} s"));
+    Finding::new(
+        "growth_total",
+        json!({"series": name, "size_a": a, "size_b": b}),
+        format!("generate's running time explodes with '{name}': size {a} takes {ta:.2} s of CPU time, size {b} takes {tb_s} - more than a factor {GROWTH_FACTOR} for {GROWTH_STEP} more units, i.e. exponential growth; at the stated bound (256 levels / 64 KiB) it does not return within any bounded time"),
+        json!(format!("at most a factor {GROWTH_FACTOR} per {GROWTH_STEP} more units (any polynomial of degree <= 6)")),
+        json!("exponential growth"),
+    )
+}
+
+/// Runs one series up to `max_size`; stops once a step needs more than 5 s. Returns (report, finding).
+fn run_growth(si: usize, name: &str, max_size: usize) -> (Value, Option<Finding>) {
+    let mut times: Vec<(usize, Option<f64>)> = vec![];
+    let mut size = GROWTH_STEP;
+    let mut finding = None;
+    while size <= max_size {
+        match growth_step(si, size) {
+            Err(e) => {
+                // a panic or an abort at this size: the probe family reports those; here the series just ends
+                times.push((size, None));
+                return (json!({"series": name, "cpu_seconds_by_size": times, "ended_by": e}), None);
+            }
+            Ok(t) => {
+                if let Some(&(ps, Some(pt))) = times.last() {
+                    let exploded = match t {
+                        Some(t) => pt >= GROWTH_MIN_CPU_S && t > GROWTH_FACTOR * pt,
+                        None => pt <= GROWTH_STEP_LIMIT_S as f64 / GROWTH_FACTOR,
+                    };
+                    if exploded && ps >= 2 * GROWTH_STEP {
+                        finding = Some(growth_finding(name, ps, pt, size, t));
+                    }
+                }
+                times.push((size, t));
+                if finding.is_some() || t.map(|t| t > 5.0).unwrap_or(true) {
+                    break;
+                }
+            }
+        }
+        size += GROWTH_STEP;
+    }
+    (json!({"series": name, "cpu_seconds_by_size": times.iter().map(|(s, t)| json!([s, t.map(|x| (x * 1000.0).round() / 1000.0)])).collect::<Vec<_>>()}), finding)
 }
 
 /// Entry point of a probe child: `kiki-mc c07-probe <index>`.
@@ -428,10 +550,21 @@ pub fn run(ctx: &Ctx) -> Outcome {
             probe_report.push(json!({"probe": name, "bytes": v["bytes"], "result": v["result"], "wall_s": v["wall_s"]}));
         }
     }
+    // growth series (CPU time per size, each size in its own single-threaded child)
+    let gs = growth_series();
+    let growth: Vec<(Value, Option<Finding>)> = (0..gs.len()).into_par_iter().map(|i| run_growth(i, gs[i].0, 64)).collect();
+    let mut growth_report = vec![];
+    for (rep, f) in growth {
+        growth_report.push(rep);
+        if let Some(f) = f {
+            out.push(f);
+        }
+    }
+    out.cov("growth_series", json!(growth_report));
     let exhaustive = scopes.iter().all(|s| s["completed"].as_bool().unwrap_or(false));
     out.cov("evaluations", json!(evaluations));
     out.cov("distinct_nontrivial", json!(evaluations.saturating_sub(1)));
-    out.cov("rule", json!("every input of the four exhaustive families (all distinct texts; non-trivial = non-empty) is given to the real generate under catch_unwind, in a child process with a per-input watchdog of 60 s; plus one bound probe per repeatable construct at the stated bounds, each in its own child (a probe that does not finish within 300 s is reported as inconclusive, not as a violation: slow is not looping)"));
+    out.cov("rule", json!("every input of the four exhaustive families (all distinct texts; non-trivial = non-empty) is given to the real generate under catch_unwind, in a child process with a per-input watchdog of 60 s; plus one bound probe per repeatable construct at the stated bounds, each in its own child (a probe that does not finish within 300 s is reported as inconclusive, not as a violation: slow is not looping); plus growth series that tell exponential cost from polynomial cost by the ratio of CPU times at consecutive sizes"));
     out.cov("exhaustive", json!(exhaustive));
     out.cov("exhaustive_note", json!("exhaustive refers to the four small-scope families only; between them and the bound probes the claim rests on the small-scope hypothesis (the 64-KiB string space is not enumerable)"));
     out.cov("scopes", json!(scopes));
@@ -458,6 +591,18 @@ pub fn replay(kind: &str, case: &Value) -> Option<Vec<Finding>> {
             } else {
                 vec![]
             })
+        }
+        "growth_total" => {
+            let name = case["series"].as_str()?;
+            let (a, b) = (case["size_a"].as_u64()? as usize, case["size_b"].as_u64()? as usize);
+            let si = growth_series().iter().position(|g| g.0 == name)?;
+            let ta = growth_step(si, a).ok()??;
+            let tb = growth_step(si, b).ok()?;
+            let exploded = match tb {
+                Some(t) => ta >= GROWTH_MIN_CPU_S && t > GROWTH_FACTOR * ta,
+                None => ta <= GROWTH_STEP_LIMIT_S as f64 / GROWTH_FACTOR,
+            };
+            Some(if exploded { vec![growth_finding(name, a, ta, b, tb)] } else { vec![] })
         }
         "probe_total" => {
             let name = case["probe"].as_str()?;
